@@ -180,7 +180,7 @@ impl Player {
             };
             return ("create".into(), bytes);
         }
-        if !step["lc"].is_null() && step["lc"] != json!("NULL") {
+        if Self::has_lc(step) {
             return ("call".into(), self.ledger_calldata(&step["lc"]));
         }
         ("call".into(), asm::encode_ops(&step["ops"]))
@@ -214,6 +214,10 @@ impl Player {
         }
     }
 
+    fn has_lc(step: &Value) -> bool {
+        step["lc"].is_object() && step["lc"]["fn"].as_str().map(|f| f != "none").unwrap_or(false)
+    }
+
     fn gas_len(step: &Value) -> u64 {
         match &step["gas"] {
             Value::String(s) if s == "tiny" => 1,
@@ -241,7 +245,7 @@ impl Player {
         if let Some(ops) = step["ops"].as_array() {
             Self::collect_slots(ops, &mut self.u_slots);
         }
-        if !step["lc"].is_null() && step["lc"] != json!("NULL") {
+        if Self::has_lc(step) {
             let lc = step["lc"].clone();
             let tk = lc["tk"].as_str().unwrap_or("").to_string();
             let spell = lc["spell"].as_str().unwrap_or(&tk).to_string();
@@ -278,7 +282,7 @@ impl Player {
             "to": if kind == "create" { json!("NULL") } else { step["to"].clone() },
             "ckind": if kind == "create" { step["ckind"].clone() } else { json!("NULL") },
             "ops": if step["ops"].is_array() { step["ops"].clone() } else { json!([]) },
-            "lc": if step["lc"].is_object() { step["lc"].clone() } else { json!({"fn": "none"}) },
+            "lc": if Self::has_lc(step) { step["lc"].clone() } else { json!({"fn": "none"}) },
             "gas": if step["gas"] == json!("tiny") { json!("tiny") } else { json!("ample") },
         })
     }
